@@ -26,13 +26,15 @@ func main() {
 				adm = append(adm, fmt.Sprintf("%d:%v", i, e))
 			}
 		}
-		fmt.Printf("  block %d flags=%d txs=%d period=%d rejected=%v\n", t.Block.Height(), t.Block.Header.Flags(), len(t.Block.Body.Transactions), t.A.App.State.ValidationPeriod(), adm)
+		fmt.Printf("  block %d flags=%d txs=%d period=%d rejected=%v proposer=%s nonceP=%d\n", t.Block.Height(), t.Block.Header.Flags(), len(t.Block.Body.Transactions), t.A.App.State.ValidationPeriod(), adm, world.ActorNames[t.A.Opts.KeyIdx], t.A.App.State.GetIdentity(world.A(world.P)).DelegationNonce)
 		return true
 	}
 	st := m.Init(scn)
 	for _, arg := range os.Args[2:] {
 		var a chainprop.Action
-		if arg == "EPOCH" {
+		if strings.HasPrefix(arg, "BY:") {
+			a = chainprop.Action{Name: arg, By: arg[3:]}
+		} else if arg == "EPOCH" {
 			a = chainprop.Action{Name: "epoch", Macro: "epoch"}
 		} else {
 			parts := strings.Split(arg, "|")
@@ -67,4 +69,11 @@ func main() {
 		}
 	}
 	fmt.Println("epoch", r.App.State.Epoch(), "network", r.App.ValidatorsCache.NetworkSize())
+	vc := r.App.ValidatorsCache
+	fmt.Println("P pool:", vc.IsPool(world.A(world.P)), "size", vc.PoolSize(world.A(world.P)))
+	for i := 0; i <= world.NEW2; i++ {
+		if d := vc.Delegator(world.A(i)); !d.IsEmpty() {
+			fmt.Println("  delegator", world.ActorNames[i], world.A(i).Hex()[:8])
+		}
+	}
 }
